@@ -32,11 +32,13 @@ DESIGN_REF = "DESIGN.md section 3 (C07), section 4 (F4, F5)"
 def strategy(tier):
     @st.composite
     def case(draw):
-        c = draw(lossgen.loss_case(target_param="any-order", target_state=True, max_states=3, n_times=(3, 8)))
+        c = draw(lossgen.loss_case(target_param="any-order", target_state=True, max_states=3, n_times=(3, 8), catalogue=1))
         c["method"] = draw(st.sampled_from([None, None, "lsoda", "vode", "dopri5"]))
-        c["entry"] = draw(st.sampled_from(["sensitivity", "gradient", "sensitivity-full", "sensitivityIV"]))
+        c["entry"] = draw(st.sampled_from(["sensitivity", "gradient", "sensitivity-full", "sensitivityIV", "sensitivityIV", "jac"]))
         if c["entry"] != "sensitivityIV":
             c["target_state"] = None
+        if c["entry"] == "jac":
+            c["weights"] = None
         return c
     return case()
 
@@ -109,6 +111,33 @@ def oracle(case, rec):
     fd = (cp - cm) / (2 * h)
     if abs(fd - ref[k0]) > 1e-3 * (1 + abs(fd) + np.abs(ref).max()):
         raise Inconclusive("reference gradient disagrees with finite difference of reference cost")
+    if case["entry"] == "jac":
+        # jac(theta): the sensitivities of the observed states w.r.t. the free parameters at the observation times, the raw
+        # material of gradient/jtj.  Checked as a set of columns (every reference column d x_s(t_.)/d theta_k appears exactly
+        # once), so that the column layout, which only the library's own consumers rely on, is not part of the verdict.
+        out = refsolve.reference_sensitivities(m, lossgen.full_theta(case, free), x0, su["t0"], times)
+        Sp = out[1]
+        tp_ = case["target_param"] or m["params"]
+        refcols = [(s_, q, Sp[:, cols[j], m["params"].index(q)]) for q in tp_ for j, s_ in enumerate(case["obs"])]
+        J = np.asarray(call(key, case, obj.jac, np.array(free), False, False, case["method"]), float)
+        if J.ndim != 2 or J.shape != (len(times), len(refcols)):
+            raise PropertyViolation(key + "/shape", "jac has shape %s, expected (%d observation times, %d observed states x %d free "
+                                    "parameters)" % (J.shape, len(times), len(case["obs"]), len(tp_)), case)
+        unused = list(range(J.shape[1]))
+        for s_, q, col in refcols:
+            tol = 1e-5 * (np.abs(col).max() + 1e-9) + 1e-7 * (1 + np.abs(yhat).max())
+            hit = [c for c in unused if np.abs(J[:, c] - col).max() <= tol]
+            if not hit:
+                raise PropertyViolation(key + "/value", "no column of jac equals d %s(t_i)/d %s = %s (jac columns: %s)" % (
+                    s_, q, np.array2string(col, precision=6), np.array2string(J.T, precision=6)), case)
+            unused.remove(hit[0])
+        layout = all(np.abs(J[:, j + len(case["obs"]) * k] - refcols[k * len(case["obs"]) + j][2]).max()
+                     <= 1e-5 * (np.abs(refcols[k * len(case["obs"]) + j][2]).max() + 1e-9) + 1e-7 * (1 + np.abs(yhat).max())
+                     for k in range(len(tp_)) for j in range(len(case["obs"])))
+        rec.label("jac-layout:" + ("state-fastest-within-parameter" if layout else "other"))
+        if len(refcols) >= 2:
+            rec.mark_nontrivial(case, dict(lossgen.describe(case), entry="jac", method=case["method"]))
+        return
     if iv:
         arg = np.array(list(free) + [x0[names.index(s)] for s in (case["target_state"] or names)])
         got = call(key, case, obj.sensitivityIV, arg, False, case["method"])
